@@ -81,6 +81,8 @@ type c16Ref struct {
 
 var c16Names = map[string]string{"math/rand/v2": "rand", "gopkg.in/yaml.v2": "yaml", "a/x/chi/v5": "chi"}
 
+var c16NamesWant = fmt.Sprintf("%v", c16Names)
+
 func c16Imports(src []byte, shared *goast.DecoratorResolver, rr interface {
 	ResolvePackage(string) (string, error)
 }) (string, *dst.File, error) {
@@ -157,6 +159,10 @@ func runC16(c *fw.Ctx) {
 		if len(refs) >= c.Pick(10, 24) {
 			break
 		}
+	}
+	// a resolver over a caller's table is read-only: the table is as it was
+	if got := fmt.Sprintf("%v", c16Names); got != c16NamesWant {
+		c.Violate("shared-resolver-modified", "shared-resolver-modified:guess:sequential", "the name table handed to guess.WithMap changed while files were decorated and restored one after the other: "+got, "")
 	}
 	// a synthetic file whose imports clash by name (exercises the map-ordered rename logic) and
 	// one with a dot-import (resolver error path)
@@ -241,6 +247,13 @@ func runC16(c *fw.Ctx) {
 		}
 		c.Case(id, func() {
 			c.Observe("goroutine_counts", fmt.Sprint(G))
+			// a guess resolver of the round's own over a fresh copy of the name table (one shared
+			// value for all goroutines of the round: nothing it has seen before)
+			roundNames := map[string]string{}
+			for _, k := range []string{"math/rand/v2", "gopkg.in/yaml.v2", "a/x/chi/v5"} {
+				roundNames[k] = c16Names[k]
+			}
+			guessMap := guess.WithMap(roundNames)
 			sharedLazy := goast.New()
 			sharedMap := goast.WithResolver(guessMap)
 			simpleMap := simple.New(map[string]string{})
